@@ -11,11 +11,7 @@ pub fn mk_cpu<S: Src>(s: &mut S, pc: u32) -> Cpu {
     ghost::reset();
     mem::reset();
     let mut cpu = Cpu::new();
-    let mut i = 0;
-    while i < 8 {
-        cpu.er[i] = s.u32();
-        i += 1;
-    }
+    cpu.er = [s.u32(), s.u32(), s.u32(), s.u32(), s.u32(), s.u32(), s.u32(), s.u32()];
     cpu.vh_set_ccr(s.u8());
     cpu.vh_set_pc(pc);
     cpu
